@@ -104,7 +104,8 @@ CONTAINER_ATTR = {
     "rename_all_fields": '#[serde(rename_all_fields = "camelCase")]',
     "tag": '#[serde(tag = "type")]', "optional_fields": "#[ts(optional_fields)]", "rename": '#[serde(rename = "RenamedType")]',
 }
-REPR_ATTR = {"ext": "", "int": '#[serde(tag = "t")]', "adj": '#[serde(tag = "t", content = "c")]', "unt": "#[serde(untagged)]"}
+# (a flag ts-rs does not know in front of the keys it does: what follows it must still take effect)
+REPR_ATTR = {"ext": "", "int": '#[serde(deny_unknown_fields, tag = "t")]', "adj": '#[serde(deny_unknown_fields, tag = "t", content = "c")]', "unt": "#[serde(untagged)]"}
 FIELD_NAMES = ["field_one", "_field_two", "field_three"]       # (one name that is not in the conventional case)
 VARIANT_NAMES = ["IOVarOne", "VarTwo", "VarThree"]        # (adjacent capitals: the case conversions differ on them)
 
